@@ -242,6 +242,15 @@ def check_stats(ctx, info):
     ctx.count("sizes_as." + rep)
     with contextlib.redirect_stdout(buf):
         scale_stats.show_scales_info(given)
+    # the same info object is reported on a second time (a program that
+    # prints the statistics before and after a conversion): same report
+    buf2 = io.StringIO()
+    with contextlib.redirect_stdout(buf2):
+        scale_stats.show_scales_info(given)
+    if buf2.getvalue() != buf.getvalue():
+        ctx.fail("a second report on the same info object differs from the "
+                 "first: %r vs %r" % (buf2.getvalue()[:200],
+                                      buf.getvalue()[:200]))
     lines = buf.getvalue().splitlines()
     exp = []
     for sc in info["scales"]:
